@@ -109,6 +109,9 @@ def run(ctx):
     import fickling.fickle as fk
     sys.path.insert(0, os.path.join(ROOT, "harness", "natmods"))
     n = 3
+    # beyond the property: the whole command line as a decision table (drift only, never an alarm)
+    from .. import cliargs
+    cliargs.run(ctx, sample=4000 if ctx.quick else None)
     cfg = open(os.path.join(tlc.SPEC, "Cli.cfg.tmpl")).read().replace("@N@", str(n))
     cases = tv.generate(ctx, "Cli", cfg, "CASE", workers=4, name=f"gen:Cli:n{n}")
     if ctx.quick:       # all stacks of 1-2, a seeded sample of the stacks of 3
